@@ -435,6 +435,8 @@ impl PeerHandler {
 
     async fn handle_choke(&mut self) -> Result<bool, Box<dyn std::error::Error>> {
         self.peer_state.choked = true;
+        // Choking peer discards all our requests, so partially downloaded piece is dropped too
+        self.piece_rx = None;
         self.trigger_cmd_recv_choke().await?;
         Ok(true)
     }
